@@ -175,6 +175,17 @@ impl Handle {
     }
 }
 fn mk_stack(per_layer: bool, initial: &FSpec, rec: RecLayer) -> (Dispatch, Handle) {
+    mk_stack_pos(per_layer, false, initial, rec)
+}
+/// `outermost`: the reloadable global layer is added last (on top of the recording layer)
+/// instead of directly on the registry.
+fn mk_stack_pos(per_layer: bool, outermost: bool, initial: &FSpec, rec: RecLayer) -> (Dispatch, Handle) {
+    if !per_layer && outermost {
+        let (l, h) = reload::Subscriber::new(as_layer(initial));
+        // (an and_then tree: the boxed layer is typed for `Registry`, so it cannot be `.with()`ed
+        // on top of another layer; inside the tree it is the outer element all the same)
+        return (Dispatch::new(Registry::default().with(rec.and_then(l))), Handle::Layer(h));
+    }
     if per_layer {
         let (f, h) = reload::Subscriber::new(as_filter(initial));
         (Dispatch::new(Registry::default().with(rec.with_filter(f))), Handle::Filter(h))
@@ -252,9 +263,10 @@ fn child_hist(args: &Args) {
         }
         let mut rng = Rng::derive(args.seed, 0xC12 + args.shard, h);
         let per_layer = rng.bool();
+        let outermost = rng.bool();
         let rec = RecLayer::default();
         let mut cur = gen_spec(&mut rng);
-        let (disp, handle) = mk_stack(per_layer, &cur, rec.clone());
+        let (disp, handle) = mk_stack_pos(per_layer, outermost, &cur, rec.clone());
         let workers = Workers::new(3);
         for t in 0..3 {
             let d = disp.clone();
@@ -266,7 +278,12 @@ fn child_hist(args: &Args) {
                 .expect("HARNESS: install");
         }
         let handle = Arc::new(handle);
-        let mut ops: Vec<String> = vec![format!("stack: {} initial {}", if per_layer { "per-layer filter" } else { "global layer" }, cur.code())];
+        let mut ops: Vec<String> = vec![format!(
+            "stack: {} initial {}",
+            if per_layer { "per-layer filter" } else if outermost { "global layer, outermost (above the recording layer)" } else { "global layer, directly on the registry" },
+            cur.code()
+        )];
+        out.count(if per_layer { "histories_per_layer_filter" } else if outermost { "histories_global_layer_outermost" } else { "histories_global_layer_innermost" }, 1);
         let mut prev: Option<FSpec> = None;
         // callsite -> spec code under which it was last hit (what its cache was computed from)
         let mut last_hit: std::collections::HashMap<usize, String> = Default::default();
